@@ -1,6 +1,8 @@
 package props
 
 import (
+	"strings"
+
 	"golang.org/x/tools/go/ssa"
 
 	"idenaverif/internal/engine"
@@ -10,7 +12,7 @@ func init() { register("C16", C16) }
 
 // C16 — flip lottery: determinism and the assignment<->recipient linkage shape.
 func C16(p *engine.Prog, r *engine.Report) {
-	r.Explanation = "(R1) effect analysis A over the lottery (GetAuthorsDistribution, GetFlipsDistribution, calculateCeremonyCandidates, getCandidatesAndFlips): every PRNG is rand.New(rand.NewSource(f(seed))), no clock/global randomness, every iteration in unspecified order is order-insensitive by idiom or a confirmed instance; (R2) the two inverse tables authorsPerCandidate / candidatesPerAuthor are updated in lock-step: every append of author a to authorsPerCandidate[c] has, in the same basic block, the append of c to candidatesPerAuthor[a], and nothing else writes either map ('and vice versa'); (R3) one source of truth: ValidationCeremony.shardLotteries is written only from GetAuthorsDistribution(vc.shardCandidates, seed, n); the flip assignment reads authorsPerCandidate of the same shard entry and the same seed/n; the key-package recipient list and the package index read candidatesPerAuthor of that same field, indexed by getCandidateIndex of the author and resolved in the same shard's candidate list. Decides determinism and linkage shape; does not decide in-range / duplicate-free / quota / non-empty long list (index arithmetic over runtime sizes) nor decryptability."
+	r.Explanation = "(R1) effect analysis A over the lottery (GetAuthorsDistribution, GetFlipsDistribution, calculateCeremonyCandidates, getCandidatesAndFlips): every PRNG is rand.New(rand.NewSource(f(seed))), no clock/global randomness, every iteration in unspecified order is order-insensitive by idiom or a confirmed instance; (R2) the two inverse tables authorsPerCandidate / candidatesPerAuthor are updated in lock-step: every append of author a to authorsPerCandidate[c] has, in the same basic block, the append of c to candidatesPerAuthor[a], and nothing else writes either map ('and vice versa'); (R3) one source of truth: ValidationCeremony.shardLotteries is written only from GetAuthorsDistribution(vc.shardCandidates, seed, n); the flip assignment reads authorsPerCandidate of the same shard entry and the same seed/n; the key-package recipient list and the package index read candidatesPerAuthor of that same field, indexed by getCandidateIndex of the author and resolved in the same shard's candidate list. (R4) the long-list placeholder is written to the list whose emptiness its guard tests, the recipient list has exactly one entry per element of candidatesPerAuthor[author] in order and the package index is the position in that raw list. Decides determinism and linkage shape; does not decide in-range / duplicate-free / quota / non-empty long list (index arithmetic over runtime sizes) nor decryptability."
 	r.Assumptions = []string{"math/rand with an explicit source is a pure function of the seed", "candidate order inside a shard comes from IterateIdentities (IAVL key order) or the stored lottery identities"}
 	var entries []*ssa.Function
 	for _, n := range []string{"GetAuthorsDistribution", "GetFlipsDistribution", "ValidationCeremony.calculateCeremonyCandidates", "ValidationCeremony.getCandidatesAndFlips", "SortFlips"} {
@@ -206,6 +208,7 @@ func C16(p *engine.Prog, r *engine.Report) {
 		r.Check(ok, "C16-R3", "PrivateEncryptionKeyCandidates|candidate list and lottery of the same shard", p.Pos(f.Pos()), "same shard key", "recipient indexes are resolved in another shard's candidate list")
 	}
 	r.Floor("C16-R3", 5, "producer, consumer, 2 recipient readers, shard agreement")
+	c16R4(p, r)
 }
 
 // varNameOf: the source variable name behind a value when it is a load of a named local /
@@ -223,4 +226,117 @@ func varNameOf(v ssa.Value) string {
 		}
 	}
 	return engine.PathOf(v)
+}
+
+// c16R4: local shape rules of the assignment/recipient code.
+func c16R4(p *engine.Prog, r *engine.Report) {
+	// (a) the placeholder loop of GetFlipsDistribution tests the very list it fills
+	if f := mustFunc(p, r, "core/ceremony", "GetFlipsDistribution"); f != nil {
+		n := 0
+		for _, b := range f.Blocks {
+			for _, ins := range b.Instrs {
+				st, ok := ins.(*ssa.Store)
+				if !ok {
+					continue
+				}
+				ia, ok := st.Addr.(*ssa.IndexAddr)
+				if !ok {
+					continue
+				}
+				// stored value: a one-element literal slice
+				sl, ok := st.Val.(*ssa.Slice)
+				if !ok {
+					continue
+				}
+				if a, isA := sl.X.(*ssa.Alloc); !isA || a.Comment != "slicelit" {
+					continue
+				}
+				n++
+				// the guard that dominates this block: len(X'[i]) == 0
+				okG := false
+				for d := b; d != nil; d = d.Idom() {
+					if len(d.Instrs) == 0 {
+						continue
+					}
+					i, isIf := d.Instrs[len(d.Instrs)-1].(*ssa.If)
+					if !isIf || d == b {
+						continue
+					}
+					x, y, _, isEq := eqCond(i.Cond)
+					if !isEq {
+						continue
+					}
+					for _, pr := range [][2]ssa.Value{{x, y}, {y, x}} {
+						if k, isK := engine.ConstInt(pr[1]); !isK || k != 0 {
+							continue
+						}
+						ln, isC := pr[0].(*ssa.Call)
+						if !isC {
+							continue
+						}
+						if bi, isB := ln.Call.Value.(*ssa.Builtin); !isB || bi.Name() != "len" {
+							continue
+						}
+						if u, isU := ln.Call.Args[0].(*ssa.UnOp); isU {
+							if ia2, isIA := u.X.(*ssa.IndexAddr); isIA && engine.PathOf(ia2.X) == engine.PathOf(ia.X) && engine.PathOf(ia2.Index) == engine.PathOf(ia.Index) {
+								okG = true
+							}
+						}
+					}
+					break
+				}
+				r.Check(okG, "C16-R4", "GetFlipsDistribution|placeholder guards the list it fills", p.InstrPos(st), "if len(list[i]) == 0 { list[i] = placeholder } on the same list and index", "the placeholder is written to a list whose emptiness is not what the guard tests: a candidate can keep an empty long-session list")
+			}
+		}
+		if n == 0 {
+			r.Und("C16-R4", "GetFlipsDistribution|placeholder assignment", p.Pos(f.Pos()), "placeholder store not found")
+		}
+	}
+	// (b) the recipient list has one entry per element of candidatesPerAuthor[author], in order:
+	// positions are what getPrivateKeyPackageIndex returns
+	if f := mustFunc(p, r, "core/ceremony", "ValidationCeremony.PrivateEncryptionKeyCandidates"); f != nil {
+		ok := false
+		for _, c := range engine.Calls(f) {
+			bi, isB := c.Common().Value.(*ssa.Builtin)
+			if !isB || bi.Name() != "append" {
+				continue
+			}
+			hdr := engine.LoopHeaderOf(c.Block())
+			if hdr == nil {
+				continue
+			}
+			// every back edge of the loop passes the append block
+			reach := engine.ReachAvoiding(f, hdr, nil, map[*ssa.BasicBlock]bool{c.Block(): true})
+			ok = true
+			for _, pr := range hdr.Preds {
+				if hdr.Dominates(pr) && pr != c.Block() && reach[pr] {
+					ok = false
+				}
+			}
+			// appended element resolved from the iterated element
+			if ok {
+				ok = dependsOnIterVarIn(c.Common().Args[1], loopBlocks(hdr))
+			}
+		}
+		r.Check(ok, "C16-R4", "PrivateEncryptionKeyCandidates|one recipient entry per list element, in order", p.Pos(f.Pos()), "every iteration appends exactly the element's public key", "the recipient list skips or filters elements of candidatesPerAuthor[author]: positions no longer match getPrivateKeyPackageIndex, a recipient reads another slot of the key package")
+	}
+	if f := mustFunc(p, r, "core/ceremony", "ValidationCeremony.getPrivateKeyPackageIndex"); f != nil {
+		// returns the range index of the first element equal to the solver's candidate index
+		ok := false
+		for _, ret := range engine.Returns(f) {
+			if len(ret.Results) != 1 {
+				continue
+			}
+			if ph, isPhi := ret.Results[0].(*ssa.Phi); isPhi && strings.Contains(ph.Comment, "rangeindex") {
+				ok = true
+			}
+			if bo, isB := ret.Results[0].(*ssa.BinOp); isB {
+				if ph, isPhi := bo.X.(*ssa.Phi); isPhi && strings.Contains(ph.Comment, "rangeindex") {
+					ok = true
+				}
+			}
+		}
+		r.Check(ok, "C16-R4", "getPrivateKeyPackageIndex|returns the position in the raw list", p.Pos(f.Pos()), "range index of the first match", "package index is not the position in candidatesPerAuthor[author]")
+	}
+	r.Floor("C16-R4", 3, "placeholder + two positional readers")
 }
